@@ -1,9 +1,5 @@
 SPECIFICATION TSpec
-CONSTANTS
-  Conns = {c1, c2}
-  MaxReq = 2
-  NoChk2 = FALSE
-  DecBeforeClose = FALSE
+CONSTANTS Conns = {c1, c2, c3}  MaxReq = 2  NoChk2 = FALSE  DecBeforeClose = FALSE
 INVARIANTS NoForwardAfterShutdown NilOnlyWhenDrained ErrOnlyIfCtx
 CONSTRAINT HWM
 POSTCONDITION Accepted
